@@ -478,6 +478,9 @@ def run_roundtrip(case, ctx):
             ctx.nontrivial()
 
 
+# libFuzzer executions per shard and @given test of the coverage-guided extra of the thorough tier (vp/fuzz.py)
+FUZZ = 2000
+
 TESTS = [
     Test('penalty', run_penalty, strategy=lambda tier: penalty_cases(tier),
          examples={'quick': 4000, 'thorough': 200000}),
